@@ -121,12 +121,12 @@ def run_live(tier):
     return out
 
 
-STREAM_DEV = dict(DrainDone="all", RegisterDone=True, EndEarly=0)
+STREAM_DEV = dict(DrainDone="all", RegisterDone="always", EndEarly=0)
 STREAM_INVS = ["TypeOK", "Inv_C01", "Inv_C02", "Inv_C03", "Inv_C05", "Inv_C08"]
 
 
-def stream_consts(N, order="fwd", wrapped=False, strategy="none", k=0, pre=False, early=True, **dev):
-    c = dict(N=N, Order=order, Wrapped=wrapped, Strategy=strategy, K=k, PreSig=pre, DropStreamEarly=early)
+def stream_consts(N, order="fwd", wrapped=False, strategy="none", k=0, pre=False, early=True, tasks=1, spurious=False, **dev):
+    c = dict(N=N, Order=order, Wrapped=wrapped, Strategy=strategy, K=k, PreSig=pre, DropStreamEarly=early, Tasks=tasks, Spurious=spurious)
     d = dict(STREAM_DEV)
     d.update(dev)
     c.update(d)
@@ -139,7 +139,10 @@ def stream_sweep(tier, interrupting_only=False):
             ("int_finish", dict(wrapped=True, strategy="finish")),
             ("int_polln1_rev", dict(wrapped=True, strategy="poll_n", k=1, order="rev")),
             ("int_polln2_pre", dict(wrapped=True, strategy="poll_n", k=2, pre=True)),
-            ("int_ignore", dict(wrapped=True, strategy="ignore"))]
+            ("int_ignore", dict(wrapped=True, strategy="ignore")),
+            # two consumer tasks with their own wakers, polling at any time (a second task taking over)
+            ("plain_2tasks", dict(tasks=2, spurious=True)),
+            ("int_finish_2tasks_rev", dict(wrapped=True, strategy="finish", order="rev", tasks=2, spurious=True))]
     if tier == "thorough":
         sets += [("int_finish_pre", dict(wrapped=True, strategy="finish", pre=True)),
                  ("int_polln0", dict(wrapped=True, strategy="poll_n", k=0)),
@@ -154,6 +157,13 @@ def stream_sweep(tier, interrupting_only=False):
             continue
         out.append(job("StreamApi", f"stream_{name}_n{n}", stream_consts(n, **kw), STREAM_INVS, workers=3, heap="4g"))
     return out
+
+
+def stream_mutants(tier):
+    """deliberate deviations of the stream model that MUST fail (the design level notices this class of defect)"""
+    return [job("StreamApi", "stream_mut_stale_registration", stream_consts(3, tasks=2, spurious=True, RegisterDone="stale"),
+                STREAM_INVS, workers=2, heap="2g", expect="Inv_C05"),
+            job("StreamApi", "stream_mut_drain_one", stream_consts(3, DrainDone="one"), STREAM_INVS, workers=2, heap="2g", expect="Inv_C05")]
 
 
 def stream_live(tier):
@@ -318,7 +328,7 @@ def plan_for(prop, tier, seed):
         P["nontrivial_keys"] = ["idle", "return"]
         P["rule"] = "non-trivial = distinct traces with an idle point (Pending, not woken) or a return; every poll, return, cancel and panic event is checked"
     elif prop == "C05":
-        P["design"] = stream_sweep(tier) + stream_live(tier)
+        P["design"] = stream_sweep(tier) + stream_live(tier) + stream_mutants(tier)
         P["families"] = [fam("stream_exh", shards=12 if T else 6, sample=1), fam("stream_rand", shards=4), fam("wide", shards=2, focus="stream"),
                          fam("scale", shards=1, focus="roots", tag="ro")]
         P["nontrivial_keys"] = ["stall_check_nontrivial", "dropref_while_pending"]
